@@ -167,14 +167,13 @@ func (ex *Exec) step(st *State, in ssa.Instruction) {
 	case *ssa.Send:
 		ex.g.note("channel send abstracted (no effect modelled)")
 	case *ssa.Select:
-		ex.g.note("select abstracted: arbitrary branch, arbitrary received values")
+		ex.g.note("select abstracted: arbitrary branch, arbitrary received values; no heap effect (sequential model)")
 		var res []string
 		tt := x.Type().(*types.Tuple)
 		for i := 0; i < tt.Len(); i++ {
 			res = append(res, ex.freshVal("sel", tt.At(i).Type()))
 		}
 		ex.tuples[x] = res
-		ex.havocEverything(st)
 	case *ssa.MakeChan:
 		ex.vals[x] = ex.newRef(st, "chan")
 	case *ssa.Panic:
@@ -261,7 +260,7 @@ func (ex *Exec) unop(st *State, x *ssa.UnOp) {
 			}
 		}
 	case token.ARROW:
-		g.note("channel receive abstracted: arbitrary value")
+		g.note("channel receive abstracted: arbitrary value; no heap effect (sequential model)")
 		if tt, ok := x.Type().(*types.Tuple); ok {
 			var res []string
 			for i := 0; i < tt.Len(); i++ {
@@ -271,7 +270,6 @@ func (ex *Exec) unop(st *State, x *ssa.UnOp) {
 		} else {
 			ex.vals[x] = ex.freshVal("recv", x.Type())
 		}
-		ex.havocEverything(st)
 	default:
 		unsup("unop %s", x.Op)
 	}
